@@ -31,7 +31,7 @@ func (p *Prog) inlinableHelper(callee *ssa.Function) bool {
 	if v, ok := p.helperOK[callee]; ok {
 		return v
 	}
-	ok := p.IsLocal(callee) && !knownFuncs[p.Name(callee)] && callee.TypeParams().Len() == 0 && callee.Synthetic == ""
+	ok := p.IsLocal(callee) && !knownFuncs[p.Name(callee)] && callee.Synthetic == ""
 	if ok {
 		for _, b := range callee.Blocks {
 			for _, in := range b.Instrs {
